@@ -63,7 +63,7 @@ def _post_mirror(engine, st, ctx, out):
 
 
 for c in ("ThrottleFuture", "NoCancelFuture", "ProxyFuture"):
-    UNITS.append(Unit("MapFuture._delegate_resolved[%s: transparent]" % c, "map.MapFuture._delegate_resolved", ["C01", "C03", "C07", "C09", "C12", "C17", "C18"],
+    UNITS.append(Unit("MapFuture._delegate_resolved[%s: transparent]" % c, "map.MapFuture._delegate_resolved", ["C01", "C03", "C07", "C09", "C12", "C17", "C18", "C02", "C04"],
                       _setup_mirror(c), _post_mirror, cfg=_cfg_mirror, self_cls=c))
 
 
@@ -149,9 +149,9 @@ def _post_pool_submit(engine, st, ctx, out):
 
 
 UNITS += [
-    Unit("PollExecutor.submit", "poll.PollExecutor.submit", ["C01", "C08", "C11", "C02", "C12"], _setup_sub("PollExecutor"), _post_poll_submit, cfg=_cfg_sub, self_cls="PollExecutor"),
-    Unit("SyncExecutor.submit", "sync.SyncExecutor.submit", ["C01", "C02", "C11", "C18"], _setup_sub("SyncExecutor", True), _post_sync_submit, cfg=_cfg_sub, self_cls="SyncExecutor"),
-    Unit("CustomizableThreadPoolExecutor.submit", "wrapped.CustomizableThreadPoolExecutor.submit", ["C01", "C11"], _setup_sub("CustomizableThreadPoolExecutor"),
+    Unit("PollExecutor.submit", "poll.PollExecutor.submit", ["C01", "C08", "C11", "C02", "C12", "C10", "C20"], _setup_sub("PollExecutor"), _post_poll_submit, cfg=_cfg_sub, self_cls="PollExecutor"),
+    Unit("SyncExecutor.submit", "sync.SyncExecutor.submit", ["C01", "C02", "C11", "C18", "C10", "C20"], _setup_sub("SyncExecutor", True), _post_sync_submit, cfg=_cfg_sub, self_cls="SyncExecutor"),
+    Unit("CustomizableThreadPoolExecutor.submit", "wrapped.CustomizableThreadPoolExecutor.submit", ["C01", "C11", "C10", "C20"], _setup_sub("CustomizableThreadPoolExecutor"),
          _post_pool_submit, cfg=_cfg_sub, self_cls="CustomizableThreadPoolExecutor"),
 ]
 
@@ -255,9 +255,17 @@ def _cfg_metrics():
     return cfg
 
 
-def _setup_track(engine, st):
-    f = sym_val(engine, st, "future", "f")
-    return [f], {"type": "sometype", "executor": sym_val(engine, st, "any", "name")}, {"f": f}
+def _setup_track_v(with_executor):
+    def setup(engine, st):
+        f = sym_val(engine, st, "future", "f")
+        if with_executor:
+            name = sym_val(engine, st, "any", "name")
+            return [f], {"type": "sometype", "executor": name}, {"f": f, "name": name.t}
+        return [f], {"type": "sometype"}, {"f": f, "name": Val.strv(z3.IntVal(STRINGS.get("default")))}
+    return setup
+
+
+_setup_track = _setup_track_v(True)
 
 
 def _post_track(engine, st, ctx, out):
@@ -269,6 +277,10 @@ def _post_track(engine, st, ctx, out):
     base = [("FUTURE_INPROGRESS", "inc"), ("FUTURE_TOTAL", "inc")]
     cl.append(("FUTURE_TOTAL and FUTURE_INPROGRESS are incremented exactly once per tracked future, and exactly one bookkeeping callback is registered on it", "PC",
                z3.BoolVal(len(regs) == 1 and all(b in names for b in base) and names.count(("FUTURE_TOTAL", "inc")) == 1 and names.count(("FUTURE_INPROGRESS", "inc")) == 1), ["C20"]))
+    from .base import label_key
+    key = label_key(engine, st, "sometype", ctx["name"])
+    cl.append(("both are the children labelled with the caller's type and executor name (`default` when the caller names no executor, as the f_* functions do)", "PC",
+               z3.And([e.args[0] == key for e in ms if e.callee in ("FUTURE_TOTAL", "FUTURE_INPROGRESS")] + [z3.BoolVal(True)]), ["C20"]))
     if regs:
         cb = regs[0].extra["cb"]
         ok = isinstance(cb, Partial) and isinstance(cb.fn, Func) and cb.fn.qualname.endswith("metrics.record_done")
@@ -299,6 +311,7 @@ def _post_record(engine, st, ctx, out):
 
 UNITS += [
     Unit("metrics.track_future", "metrics.track_future", ["C20", "C01"], _setup_track, _post_track, cfg=_cfg_metrics),
+    Unit("metrics.track_future[no executor label given]", "metrics.track_future", ["C20", "C01"], _setup_track_v(False), _post_track, cfg=_cfg_metrics),
     Unit("metrics.record_done", "metrics.record_done", ["C20", "C18"], _setup_record, _post_record, cfg=_cfg_metrics),
 ]
 
@@ -356,7 +369,7 @@ def _post_base_shutdown(engine, st, ctx, out):
         else:
             same = z3.And(z3.BoolVal(not ev.args), engine.to_val(st, ev.star) == ctx["a"].t if ev.star is not None else False)
         cl.append(("the base class's shutdown gets the caller's arguments (wait, cancel_futures...) unchanged, on this very executor", "PC",
-                   z3.And(same, z3.BoolVal(_same_kw(engine, st, ev.starkw, ctx["kw"]) and not ev.kwargs), ev.recv == sid), ["C11"]))
+                   z3.And(same, z3.BoolVal(_same_kw(engine, st, ev.starkw, ctx["kw"]) and not ev.kwargs), ev.recv == sid), ["C11", "C04"]))
         if isinstance(out, Raise):
             cl.append(("only the base class's own shutdown() error can escape", "EX", out.exc.t == ev.exc if ev.exc is not None else False, ["C18"]))
     elif isinstance(out, Raise):
@@ -391,9 +404,9 @@ def _post_sync_init(engine, st, ctx, out):
 
 
 UNITS += [
-    Unit("SyncExecutor.shutdown", "sync.SyncExecutor.shutdown", ["C11", "C18", "C20"], _setup_base_shutdown("SyncExecutor"), _post_base_shutdown,
+    Unit("SyncExecutor.shutdown", "sync.SyncExecutor.shutdown", ["C11", "C18", "C20", "C04"], _setup_base_shutdown("SyncExecutor"), _post_base_shutdown,
          cfg=_cfg_base_shutdown, self_cls="SyncExecutor"),
-    Unit("CustomizableThreadPoolExecutor.shutdown", "wrapped.CustomizableThreadPoolExecutor.shutdown", ["C11", "C18", "C20"],
+    Unit("CustomizableThreadPoolExecutor.shutdown", "wrapped.CustomizableThreadPoolExecutor.shutdown", ["C11", "C18", "C20", "C04"],
          _setup_base_shutdown("CustomizableThreadPoolExecutor"), _post_base_shutdown, cfg=_cfg_base_shutdown, self_cls="CustomizableThreadPoolExecutor"),
     Unit("SyncExecutor.__init__", "sync.SyncExecutor.__init__", ["C11", "C19", "C20"], _setup_sync_init, _post_sync_init, cfg=lambda: make_cfg(concurrent=False), self_cls="SyncExecutor"),
 ]
@@ -505,6 +518,92 @@ UNITS.append(Unit("ShutdownAwareEventHandler.get_event", "event.ShutdownAwareEve
                   cfg=_cfg_get_event, self_cls="ShutdownAwareEventHandler"))
 
 
+# ---- f2. the handler's constructor and clean_events (the death callback of every registered event) --------------------------------
+FIELD_TYPES[("ShutdownAwareEventHandler", "lock")] = "rlock"
+FIELD_TYPES[("ShutdownAwareEventHandler", "atexit_registered")] = "bool"
+FIELD_TYPES[("ShutdownAwareEventHandler", "shutdown")] = "bool"
+
+
+def _setup_handler_init(engine, st):
+    oid = st.alloc("ShutdownAwareEventHandler")
+    st.assume(cls_of(z3.IntVal(oid)) == engine.tag("ShutdownAwareEventHandler"))
+    for f_ in ("lock", "atexit_registered", "shutdown", "events"):
+        from pyvc.symexec import UNSET
+        st.put(f_, z3.IntVal(oid), UNSET)
+    me = Z(ref(oid), INST("ShutdownAwareEventHandler"))
+    return [me], {}, {"me": me, "hid": z3.IntVal(oid)}
+
+
+def _post_handler_init(engine, st, ctx, out):
+    hid = ctx["hid"]
+    cl = [("the constructor does not raise", "EX", not isinstance(out, Raise), ["C12", "C11"])]
+    if isinstance(out, Raise):
+        return cl
+    lst = st.get("events", hid)
+    cl.append(("a new handler is not shutting down, has no exit hook registered yet and knows no events", "PC",
+               z3.And(st.get("shutdown", hid) == Val.boolv(z3.BoolVal(False)), st.get("atexit_registered", hid) == Val.boolv(z3.BoolVal(False)),
+                      st.get("$len", Val.id(lst)) == 0), ["C12", "C11", "C03"]))
+    return cl
+
+
+def _setup_clean(engine, st):
+    h = sym_inst(engine, st, "ShutdownAwareEventHandler", "handler")
+    hid = Val.id(h.t)
+    lst = engine.typed(st, st.get("events", hid), ("list", ("weakref", "event")))
+    a = ArgPack(fresh("args", Val), "args")
+    k = ArgPack(fresh("kwargs", Val), "kwargs")
+    return [h], {}, {"h": h, "hid": hid, "star": a, "starkw": k, "lid0": Val.id(lst.t), "n0": st.get("$len", Val.id(lst.t)), "at0": st.get("$at", Val.id(lst.t))}
+
+
+def _post_clean(engine, st, ctx, out):
+    hid = ctx["hid"]
+    writes = [e for e in st.trace if e.kind == "write" and e.meth == "events"]
+    muts = [e for e in st.trace if e.kind == "mutate"]
+    cl = [("clean_events never raises (it runs as a weak-reference callback, whatever arguments it is given)", "EX", not isinstance(out, Raise), ["C12", "C18"])]
+    if isinstance(out, Raise):
+        return cl
+    cl.append(("the list of events is REPLACED exactly once, under the handler's lock, by a new list (the old list object is never pruned in place: the exit "
+               "hook may be walking it)", "PC",
+               z3.And(z3.BoolVal(len(writes) == 1 and any(h_[3] == "lock" for h_ in writes[0].held) and
+                                 not muts),
+                      Val.id(writes[0].args[0]) != (st.ghost.get("events@acquire") or {"lid": ctx["lid0"]})["lid"] if writes else False), ["C12", "C03", "C11"]))
+    lc = [v for k_, v in st.ghost.items() if k_.startswith("lc:")]
+    ok = len(writes) == 1 and len(lc) == 1 and "pos" in lc[0]
+    cl.append(("the new list is built by one filtering pass over the old one", "PC", z3.BoolVal(ok), ["C12", "C03"]))
+    if ok:
+        g = lc[0]
+        nid = Val.id(writes[0].args[0])
+        k = fresh("k", I)
+        snap = st.ghost.get("events@acquire") or {"at": ctx["at0"], "n": ctx["n0"], "lid": ctx["lid0"]}
+        old_k = z3.Select(snap["at"], k)
+        from pyvc.vals import I as _I, B as _B
+        alive = z3.And(z3.Function("wr_alive", _I, _I, _B)(Val.id(old_k), st.ghost.get("wr_last", z3.IntVal(-1))), z3.Not(Val.is_none(st.get("$referent", Val.id(old_k)))))
+        cl.append(("the event of every executor still alive stays registered for interpreter exit (k arbitrary position of the old list): only dead "
+                   "weak references are dropped", "PC",
+                   z3.Implies(z3.And(k >= 0, k < snap["n"], alive),
+                              z3.And(z3.Select(g["pos"], k) >= 0, z3.Select(g["pos"], k) < st.get("$len", nid),
+                                     z3.Select(st.get("$at", nid), z3.Select(g["pos"], k)) == old_k)), ["C12", "C03", "C11"]))
+    return cl
+
+
+UNITS.append(Unit("ShutdownAwareEventHandler.__init__", "event.ShutdownAwareEventHandler.__init__", ["C12", "C11", "C03"], _setup_handler_init, _post_handler_init,
+                  cfg=lambda: make_cfg(concurrent=False), self_cls="ShutdownAwareEventHandler"))
+def _cfg_clean():
+    cfg = _cfg_event()
+
+    def at_acquire(engine, st, owner):
+        if "events@acquire" not in st.ghost:
+            lst = st.get("events", Val.id(owner.t))
+            st.ghost["events@acquire"] = {"lid": Val.id(lst), "n": st.get("$len", Val.id(lst)), "at": st.get("$at", Val.id(lst))}     # the list as this call finds it under the lock
+        return [("atexit_registered is a bool", Val.is_boolv(st.get("atexit_registered", Val.id(owner.t))))]
+    cfg.region_inv[("ShutdownAwareEventHandler", "lock")] = at_acquire
+    return cfg
+
+
+UNITS.append(Unit("ShutdownAwareEventHandler.clean_events", "event.ShutdownAwareEventHandler.clean_events", ["C12", "C03", "C11", "C18"], _setup_clean, _post_clean,
+                  cfg=_cfg_clean, self_cls="ShutdownAwareEventHandler"))
+
+
 # ---- g. constructors of the executors without a worker thread (C11 C19 C20) ---------------------------------------------------
 SIMPLE_CTORS = {
     "MapExecutor": ("map.MapExecutor.__init__", "map"), "FlatMapExecutor": ("map.MapExecutor.__init__", "flat_map"),
@@ -607,4 +706,28 @@ def _post_aio(engine, st, ctx, out):
     return cl
 
 
-UNITS.append(Unit("AsyncioExecutor.submit_with_loop", "asyncio.AsyncioExecutor.submit_with_loop", ["C01", "C11"], _setup_aio, _post_aio, cfg=_cfg_sub, self_cls="AsyncioExecutor"))
+UNITS.append(Unit("AsyncioExecutor.submit_with_loop", "asyncio.AsyncioExecutor.submit_with_loop", ["C01", "C11", "C10"], _setup_aio, _post_aio, cfg=_cfg_sub, self_cls="AsyncioExecutor"))
+
+
+def _cfg_aio_submit():
+    cfg = make_cfg(concurrent=False)
+    cfg.contracts["more_executors._impl.asyncio.AsyncioExecutor.submit_with_loop"] = c_shutdown.RecordCall(ret_fn=lambda e, s: sym_val(e, s, "any", "aio_future")) if hasattr(c_shutdown, "RecordCall") else RecordCall(ret_fn=lambda e, s: sym_val(e, s, "any", "aio_future"))
+    cfg.stable |= {"_loop"}
+    return cfg
+
+
+def _setup_aio_submit(engine, st):
+    ex = sym_inst(engine, st, "AsyncioExecutor", "executor")
+    a = ArgPack(fresh("args", Val), "args")
+    k = ArgPack(fresh("kwargs", Val), "kwargs")
+    return [ex], {}, {"star": a, "starkw": k, "ex": ex, "sid": Val.id(ex.t), "a": a, "k": k}
+
+
+def _post_aio_submit(engine, st, ctx, out):
+    calls = [e for e in st.trace if e.kind == "repo-call" and e.meth.endswith(".submit_with_loop")]
+    ok = len(calls) == 1 and not isinstance(out, Raise) and len(calls[0].args) == 2
+    return [("submit(fn, *args, **kwargs) = submit_with_loop(<the loop given at construction>, fn, *args, **kwargs)", "PC",
+             z3.And(z3.BoolVal(ok), calls[0].args[1] == st.get("_loop", ctx["sid"]) if ok else False, engine.to_val(st, out) == calls[0].ret if ok else False), ["C01", "C11"])]
+
+
+UNITS.append(Unit("AsyncioExecutor.submit", "asyncio.AsyncioExecutor.submit", ["C01", "C11"], _setup_aio_submit, _post_aio_submit, cfg=_cfg_aio_submit, self_cls="AsyncioExecutor"))
